@@ -47,18 +47,21 @@ MODEL_SCOPE = ("modelled by hand and tied by the lex lane (not verified against 
 
 prop(
     "C01",
-    ["LolHtml.Thm.C01"],
+    ["LolHtml.Thm.C01", "LolHtml.Thm.C01_Total"],
     [{"lane": "lex", "n_quick": 4000, "n_thorough": 200000},
      {"lane": "pass", "n_quick": 3000, "n_thorough": 60000, "impl_only": True}],
     LEX_RULE + "; lane pass (implementation only): public HtmlRewriter in all 36 ASCII-compatible encodings, documents whose text the encoding round-trips, cuts anywhere incl. inside multi-byte characters, 6 observer handler sets",
     ["observing controller = tokens serialise to their raw bytes (the property's own round-trip exception for captured text), emission never disabled, nothing appended at document end",
-     "runs that reach one of the model's explicit panic branches (Rust debug assertions / clamped slices) are not successful runs; their unreachability is C15's subject",
+     "C01_passthrough is conditional on all calls succeeding; C01_passthrough_total removes that for controllers that never fail and never request aux info (non-strict mode, bytes written <= memory limit), with ONE remaining run hypothesis: no call panics at the RequestLexeme callback assertion (scanner/lexer agreement, C06_relex_same_tag locally; global threading open, see C15)",
      MODEL_SCOPE],
     level_text=("Lean 4 theorem C01_passthrough: for EVERY tokenizer table, tag configuration, settings, observing controller "
                 "(arbitrary capture-flag decision at every tag, i.e. arbitrary scanner/lexer switching), byte string and split into "
                 "writes (empty writes included): if all calls succeed the sink bytes equal the bytes written; plus the per-write "
                 "invariant sink ++ retained = written. Proved by a generic sink-preservation theorem over the DSL interpreter "
-                "(Lemmas/Preserve) and a dispatcher tiling invariant (Lemmas/Tiling). The model is tied to the code by the lex "
+                "(Lemmas/Preserve) and a dispatcher tiling invariant (Lemmas/Tiling). C01_passthrough_total: for every table passing the "
+                "kernel-checked C15 side-conditions, a never-failing observing controller, non-strict mode and input within the "
+                "memory limit, EVERY write and the end return ok and the sink bytes equal the input (error provenance: parse can "
+                "only fail by a panic at a U2 site). The model is tied to the code by the lex "
                 "correspondence lane (model vs real TransformStream on generated cases) and the direct oracle sink == input."),
     level_note=("Trusted: Lean kernel (axioms propext, Quot.sound only), the hand-written model of the dispatcher/parser glue "
                 "(checked by the lex lane, not proved equal to the Rust), the DSL/tag translators. Not covered: decode/encode "
@@ -73,25 +76,35 @@ PKG_SCOPE = "model files of the package are hand-written transcriptions tied by 
 
 prop(
     "C03",
-    ["LolHtml.Thm.C03_Sim"],
+    ["LolHtml.Thm.C03_Sim", "LolHtml.Thm.C03_Ref", "LolHtml.Thm.C03_Strict", "LolHtml.Thm.C03_Trace"],
     [{"lane": "hash", "n_quick": 3000, "n_thorough": 40000},
-     {"lane": "lex", "n_quick": 3000, "n_thorough": 100000}],
-    "lane hash: names over the hash alphabet, table names with case variants, length-limit and sentinel neighbourhood, bad bytes; "
+     {"lane": "lex", "n_quick": 3000, "n_thorough": 100000},
+     {"lane": "h5", "n_quick": 3000, "n_thorough": 60000, "impl_only": True}],
+    "lane h5 (implementation only): tag soup in the HTML namespace without svg/math (all text-mode elements, select/template/frameset/table, truncated constructs, case variants) and documents from a recursive well-nested foreign-content grammar, real HtmlRewriter (strict, all-observer and single-kind capture sets, random chunkings) vs the html5ever 0.39 tokenizer driven by its own tree builder (RcDom); lane hash: names over the hash alphabet, table names with case variants, length-limit and sentinel neighbourhood, bad bytes; "
     + LEX_RULE,
     ["the real WHATWG tree builder is NOT modelled: the expected namespaces / text types are the author's reading of WHATWG 13.2.6, validated on witnesses against html5ever (lane nsprobe), not proved",
      "Ref tables (lean/LolHtml/Ref/Tags.lean) are hand-reviewed against the standard",
+     "C03_parser_sim_trace is for pure lexer-mode runs (mixed scanner/lexer runs split the simulator step across the two machines: C06) and excludes runs dying in the three debug assertions of handle_tree_builder_feedback; the strict theorems need the table side-condition EmitsChecked (`?` on emit_tag / finish_tag_name), decided on the generated table",
      MODEL_SCOPE],
     level_text=("Lean 4 theorems over the translated tag tables and the simulator model: generated tables = reviewed reference "
                 "(C03_tags_match_reference, kernel decide), every table hash is the hash of its name and hash equality is name "
                 "equality for letter-initial names (C03_hash_injective, induction), exact characterisation of unhashable names, "
                 "ambiguity-guard = recursive specification with the exact refusal condition (C03_guard_spec, C03_guard_err_iff), "
-                "simulator invariants for all tag sequences (stack never empty, cdata flag = foreign namespace, strict run = "
+                "the tokenizer table regenerated from the DSL resolves, for every state, closing-quote value, last/non-last chunk and all 257 input classes, to the same arm (calls, ? flags, condition, target, look-ahead sequences, enter actions) as a reference table transcribed from WHATWG 13.2.5 with nine documented shape deviations (C03_table_matches_reference, 24 kernel decide steps + a soundness lemma; insensitive to arm order / #[inline] / numbering); simulator invariants for all tag sequences (stack never empty, cdata flag = foreign namespace, strict run = "
                 "non-strict run when accepted), and the expected namespace at every tag of every derivation of a well-nested "
                 "foreign-content grammar (C03_foreign_grammar, C03_foreign_doc), with proved counter-examples for the grammar's "
-                "side conditions. PARTIAL: equality with a real tree builder on tag soup is not a theorem."),
+                "side conditions. At stream level (whole model: parser + dispatcher + transform stream + rewriter, any controller, "
+                "any chunking): a strict run in which every call succeeds equals the non-strict run — results, sink log, "
+                "dispatcher and controller state (C03_strict_eq_nonstrict_stream); a strict call that fails with ParsingAmbiguity "
+                "does so exactly because the guard refuses a text-switching start tag in select / template-in-select / frameset "
+                "context, otherwise the same call fails identically in non-strict mode (C03_strict_fails_only_on_guard), and a "
+                "non-strict stream never reports ambiguity (C03_nonstrict_no_ambiguity); in lexer mode the parser's simulator is "
+                "Sim.run over the emitted lexemes' events and every start tag is stamped with its trace entry's namespace "
+                "(C03_parser_sim_trace, C03_lexer_stamps_expected carries the grammar theorem to the parser). "
+                "PARTIAL: equality with a real tree builder on tag soup is not a theorem."),
     level_note=("Trusted: Lean kernel; translators; the reviewed Ref tables; the model of the simulator (tied by lanes lex/hash). "
-                "Not covered: the 23 insertion modes of the real tree builder; tokenizer-table conformance to WHATWG 13.2.5 "
-                "(reference table for the DSL still to be added)."),
+                "Not covered: the 23 insertion modes of the real tree builder (differential lane h5 against html5ever only); a "
+                "bisimulation 'equal resolution => equal runs' and formal lemmas for the nine shape deviations of the reference table."),
     technique="Lean 4 proof (kernel-evaluated table obligations + induction over tag sequences / grammar derivations) + correspondence lanes",
     design_ref="DESIGN.md section 4 C03",
 )
@@ -137,18 +150,24 @@ prop(
 
 prop(
     "C08",
-    ["LolHtml.Thm.C08_Escape"],
+    ["LolHtml.Thm.C08_Escape", "LolHtml.Thm.C08_Real", "LolHtml.Thm.C08_Codec"],
     [{"lane": "esc", "n_quick": 3000, "n_thorough": 30000}],
-    "lane esc: body text / attribute values / comment text / attribute names / tag names biased to <>&\"'-!/= whitespace NUL comment terminators non-BMP unmappable; utf-8 and x-user-defined",
-    ["theorems are for UTF-8 documents (identity codec); other encodings are exercised by the lane and the re-tokenising oracle only",
+    "lane esc: body text / attribute values / comment text / attribute names / tag names biased to <>&\"'-!/= whitespace NUL comment terminators non-BMP unmappable; utf-8 and x-user-defined; `attrseq` cases: two set_attribute calls with multi-byte names in Shift_JIS / Big5 / GBK / UTF-8 (encoded name verified against encoding_rs)",
+    ["encodings: the codec-generic theorems (C08_Codec) hold for every lawful codec in which a non-ASCII scalar never encodes to a byte below 0x40 (StructSafe: proved for UTF-8, windows-1252, iso-8859-7 and the toy two-byte codec; gb18030's digit trail bytes are outside it); the other encodings are exercised by the lane and the re-tokenising oracle",
+     "known finding F22: names are compared ASCII-case-insensitively on the ENCODED bytes (Shift_JIS/Big5/GBK trail bytes): duplicate attributes / debug_assert; C08_F22_counterexample",
      "escape maps, reject lists and closing sequences are re-extracted from the Rust text on every run (translate/consts2lean.py); 20 side-conditions by decide", PKG_SCOPE],
     level_text=("Lean 4 theorems on the generated constants: escaped body text contains no < > and only complete entities and "
                 "decodes back (C08_body_no_markup), is one data-state run (C08_body_text_run); attribute values contain no "
                 "double quote; set_text accepts iff the WHATWG comment machine ends exactly at the final --> (C08_comment_iff, "
                 "necessary and sufficient); accepted tag/attribute names read back whole and each rejected byte splits a name "
                 "(C08_tag_name_iff, C08_attr_name_*); an accepted attribute re-parses as exactly one attribute "
-                "(C08_attribute_reads_back); setters leave the token unchanged on error (C08_reject_unchanged_*)."),
-    level_note="Trusted: Lean kernel; consts translator; small specs of the WHATWG comment / tag-name / attribute states written for this package.",
+                "(C08_attribute_reads_back); setters leave the token unchanged on error (C08_reject_unchanged_*). ON THE REAL LEXER "
+                "MODEL (generated table, recording sink, any prefix and any following input): escaped text is exactly one text "
+                "lexeme (C08_text_real), an accepted tag name / attribute serialises to exactly one start-tag lexeme whose name "
+                "and value ranges hold exactly the given bytes (C08_tagname_real, C08_attr_real), accepted comment text gives "
+                "exactly one comment lexeme with text range = the text (C08_comment_real) and rejected text ends the comment "
+                "early (C08_comment_real_early); codec-generic versions for lawful structure-safe codecs (C08_*_codec)."),
+    level_note="Trusted: Lean kernel; consts + DSL translators; small specs of the WHATWG comment / tag-name / attribute states (round 1); the real-lexer theorems use the core model tied by lane lex.",
     technique="Lean 4 proof (list induction; decidable side-conditions on translated constants) + correspondence lane + re-tokenising oracle",
     design_ref="DESIGN.md section 4 C08",
 )
@@ -193,11 +212,11 @@ prop(
 
 prop(
     "C11",
-    ["LolHtml.Thm.C11"],
+    ["LolHtml.Thm.C11", "LolHtml.Thm.C11_General"],
     [{"lane": "fault", "n_quick": 4000, "n_thorough": 100000},
      {"lane": "proto", "n_quick": 5000, "n_thorough": 100000, "impl_only": True}],
     LEX_RULE + "; lane fault = lane lex plus a handler failure injected at token index 1..8, graceful flags, memory limit and preallocation sweeps (model vs real TransformStream); lane proto (implementation only): public HtmlRewriter in all 36 encodings with end / bail-out content, token mutations with empty strings, a failure injected at handler invocation index 1..11 or by memory limit, graceful flags on/off, preallocation sizes, cuts anywhere: byte preservation and bail-out handler count",
-    ["proved for observing controllers (handlers that inspect and may FAIL at any invocation but do not mutate); rewritten tokens / removed content / partly emitted text nodes (the property's documented exceptions) are exercised by lanes only",
+    ["the exact sink CONTENT (written.take j ++ handler output ++ written.drop j) is proved for observing controllers (handlers that inspect and may FAIL at any invocation but do not mutate); for arbitrary controllers (rewriting, removing, failing) C11_bailout_general proves the shape: log at failure ++ bail-out handler output ++ the unemitted rest of the input from remaining_content_start, unmodified; the end() variant of the general theorem is not stated",
      "an end-handler failure happens after every received byte was emitted; the bail-out handlers are not run then (as coded and as the repository's own test expects)",
      MODEL_SCOPE],
     level_text=("Lean 4 theorem C11_bailout_write: for every table, flag schedule, chunking, memory limit and preallocation, "
@@ -205,7 +224,11 @@ prop(
                 "writes, the sink holds written.take j ++ bail-out-handler output ++ written.drop j with the matching flag "
                 "(handlers ran exactly once), and the prefix written.take j without it (no handler ran); C11_flags: each flag "
                 "recovers only its own kind, ambiguity never; C11_no_bailout_on_success. Built on the C01 tiling invariant, "
-                "which holds at the moment of the error."),
+                "which holds at the moment of the error. C11_bailout_general: for EVERY controller returning only handler-class "
+                "errors (it may rewrite, remove or fail) and every table passing the C15 side-conditions, a failing write leaves "
+                "log-at-failure ++ bail-out output ++ flush(input from the watermark k, k <= |retained ++ data|) with the "
+                "matching flag (two flushed slices only when Arena::append itself failed), and exactly log-at-failure without it; "
+                "the rewriter is poisoned either way."),
     level_note="Trusted: Lean kernel; model of transform_stream/{mod,dispatcher}.rs and memory/arena.rs (lanes lex, mem, memts).",
     technique="Lean 4 proof (tiling invariant holds at every failure point) + correspondence lanes",
     design_ref="DESIGN.md section 4 C11",
@@ -213,18 +236,20 @@ prop(
 
 prop(
     "C12",
-    ["LolHtml.Thm.C12"],
+    ["LolHtml.Thm.C12", "LolHtml.Thm.C12_Prefix"],
     [{"lane": "fault", "n_quick": 4000, "n_thorough": 100000},
      {"lane": "proto", "n_quick": 5000, "n_thorough": 100000, "impl_only": True}],
     LEX_RULE + "; lane fault = lane lex plus injected failures and memory limits; lane proto (implementation only): as for C11, checking the sink-call log against the protocol automaton (encoding first, zero-length chunk exactly once and last on success, never on failure, use after error panics silently)",
     ["content written by end / bail-out handlers goes through the text encoder and is never an empty slice (CleanEnds; the encoder fact is C13_encoder)",
-     "'prefix of the failure-free run' is proved only as monotonicity of the sink log (C12_monotone); the comparison of two runs is checked by lanes",
+     "'prefix of the failure-free run' is proved for memory-limit failures (C12_prefix: the same history under a limit that fails vs a limit >= the bytes written, bail_out_on_memory_limit off); for handler failures the failure-free run is a different controller, so only monotonicity (C12_monotone) and the exact content (C11) are proved",
      MODEL_SCOPE],
     level_text=("Lean 4 theorems for EVERY controller (mutating ones included), table, chunking and failure point: the sink log "
                 "is the encoding notification, then events none of which is a zero-length chunk, then the zero-length chunk iff "
                 "end() succeeded and then last (C12_protocol); a failed call poisons the rewriter and every later call is the "
                 "documented panic with the log unchanged (C12_fail_stop, C12_error_poisons); no call retracts output "
-                "(C12_monotone)."),
+                "(C12_monotone); a run that fails on the memory limit has emitted a prefix (log and bytes) of what the same "
+                "history emits under a sufficient limit, at the same call and at any later point (C12_prefix, a simulation "
+                "relating the two streams up to cap/usage/max)."),
     level_note="Trusted: Lean kernel; model of rewriter/mod.rs guarded!, transform_stream, dispatcher (lane lex).",
     technique="Lean 4 proof (generic sink-preservation over the interpreter + monotone log invariant) + correspondence lane",
     design_ref="DESIGN.md section 4 C12",
@@ -287,4 +312,126 @@ prop(
     level_note="Trusted: Lean kernel; model of rewritable_units/{mutations,element,tokens/*}.rs and the removed-content logic tied by lane edit; Spec.EditDoc as the reading of the API documentation.",
     technique="Lean 4 proof (algebraic laws of mutations + simulation to a document-edit specification) + correspondence lane + reference editor",
     design_ref="DESIGN.md section 4 C07",
+)
+
+
+prop(
+    "C15",
+    ["LolHtml.Thm.C15_Core", "LolHtml.Thm.C15_Full"],
+    [{"lane": "lex", "n_quick": 4000, "n_thorough": 200000},
+     {"lane": "fault", "n_quick": 3000, "n_thorough": 60000},
+     {"lane": "patho", "n_quick": 200, "n_thorough": 400, "impl_only": True}],
+    LEX_RULE + "; every lane of the harness runs in a build with overflow checks and debug assertions, each case under catch_unwind (a panic is an observation `PANIC …`, compared with the model which makes every panic site explicit); lane patho (implementation only): pathological shapes (deep nesting, one giant tag name / attribute list / attribute value / comment / doctype, '<' and '</' runs, foreign content, script escapes, select, CDATA, random markup bytes, hundreds of selectors, random selector strings) at sizes up to 4*10^6 bytes, in one write and in 4 KiB writes, with a deterministic work oracle (bytes handed to Parser::parse, counted by a hook, <= 2*len + 4 KiB) and a hard CPU bound",
+    ["covers the parser / dispatcher / transform-stream core; panics in selectors/cssparser/encoding_rs/std and in the packages' own scopes (selector VM: C04_vm_never_panics; handlers: C05_no_panic; memory: C10_error_not_panic; nth: C04_nth_total) are those packages' theorems",
+     "two panic sites remain open (U2): 'Tag should be a start tag at this point' (pending aux-info request answered by an end tag) and the RequestLexeme callback assertion. Both are proved unreachable LOCALLY (C15_start_tag_site_local, C15_callback_site_local: given that the re-lexed tag is the hinted one, which is C06_relex_same_tag) and C15_no_panic_full_of_agreement reduces the full statement to that agreement; the global threading of the agreement through parseLoop / Stream.write is not proved (C15_no_panic_full_statement stays a statement)",
+     "known finding F29: a token spanning many writes is re-lexed from its start on every write (quadratic work), found by lane patho",
+     "the controller itself never returns a panic/internal-class error (CtlClean)", MODEL_SCOPE],
+    level_text=("Lean 4 theorem C15_no_panic: for every tokenizer table satisfying decidable side-conditions (targets exist, "
+                "exhaustive arms, quiet enter actions, an abstract flag analysis of every arm's action list, a rank decreasing "
+                "along reconsume edges, a token-part certificate found by abstract interpretation) — all re-evaluated by "
+                "decide +kernel on the table regenerated from the Rust on every run —, every tag configuration, controller, "
+                "settings and write*;end history: every call returns ok / mem / handler / ambiguity (or the documented "
+                "use-after-error panic); 21 explicit panic / internal sites are unreachable (cursor underflows, raw and flush "
+                "ranges, every Bytes::slice site, unknown state, non-exhaustive match, Arena::shift, leave_ns, 'tag should "
+                "exist' assertions), both fuel budgets are never exhausted (C15_fuel) and one parsing-loop run makes at most "
+                "8(n+1) state invocations (C15_linear_run). PARTIAL: two sites open, whole-parse linear bound stated only."),
+    level_note="Trusted: Lean kernel; DSL translator; the core model (lanes lex / fault, debug build).",
+    technique="Lean 4 proof (register invariants through the DSL interpreter; static analyses of the table as kernel-checked side-conditions) + correspondence lanes in a debug build",
+    design_ref="DESIGN.md section 4 C15",
+)
+
+prop(
+    "C09",
+    ["LolHtml.Thm.C09_Bound"],
+    [{"lane": "lex", "n_quick": 4000, "n_thorough": 200000}],
+    LEX_RULE + "; oracles: emitted count after each write vs a fresh rewriter given the prefix in one write; with no handlers the held bytes must be '<' ['/'] name-prefix or <= 8 look-ahead bytes, and nothing when a full lexer holds nothing",
+    ["schedule independence (bytes out after write k is a function of the bytes written) is checked by the oracle only until package chunk (C02) lands",
+     "the scanner bound is for runs that stay in scanner mode (no handlers, HTML namespace or no RequestLexeme tag); foreign-content tags that need attributes are buffered whole (known finding F10, reproduced on the model as C09_F10_witness)",
+     MODEL_SCOPE],
+    level_text=("Lean 4 theorems: for any table satisfying the decidable side-condition UnmarkOnLeave (every arm leaving the "
+                "tag-head state set clears tag_start or extends '<' ['/'] name; mark_tag_start only on '<') — true on the "
+                "generated table by decide +kernel and FALSE with the two offending arms as witness on the pre-fix table "
+                "(finding F4) — a scanner run that ends a write holds back w ++ v with w empty or '<', '</', '<'['/'] + partial "
+                "tag name and v empty or a proper prefix (<= 6 bytes) of a look-ahead literal (C09_scanner_bound); nothing is "
+                "held when the state is a rest state (C09_rest_states); in lexer mode the held bytes are exactly the single "
+                "unfinished lexeme (C09_lexer_bound)."),
+    level_note="Trusted: Lean kernel; DSL translator; the core model (lane lex).",
+    technique="Lean 4 proof (scanner invariant over a decidable tag-head state set + kernel-checked table side-condition) + correspondence lane + latency oracles",
+    design_ref="DESIGN.md section 4 C09",
+)
+
+prop(
+    "C06",
+    ["LolHtml.Thm.C06_Scan", "LolHtml.Thm.C06_Relex"],
+    [{"lane": "lex", "n_quick": 4000, "n_thorough": 200000}],
+    LEX_RULE + "; oracle: every schedule S is also run as S u O for four observer sets O (TEXT, COMMENTS, DOCTYPES, every tag) and the events H would receive, the result and the sink bytes must be identical",
+    ["the top-level independence statement (dispatcher-level induction over mode switches, got_flags_from_hint bookkeeping) is stated (C06_independence_statement) but not proved; the oracle covers it. Its key step IS proved: the lexer loaded from the scanner's bookmark re-lexes the hinted tag (C06_relex_same_tag)",
+     "known finding F27: strict-mode ParsingAmbiguity on an unterminated tag at end of input depends on the handler set",
+     MODEL_SCOPE],
+    level_text=("Lean 4 theorems over the two action sets running the same table: one state-function step from related "
+                "scanner / lexer machines leaves them related in the same new state or stops both (C06_scan_lex_simulation, "
+                "C06_run_simulation, C06_break_together); outside tags all steering registers and the simulator state are "
+                "equal and the scanner's hint log equals the lexer's tag-lexeme log, inside a tag the scanner is exactly one "
+                "simulator event ahead (C06_boundary_agreement, C06_inTag_one_ahead); both mode switches re-establish the "
+                "relation (C06_switch_*); adding capture flags never turns lex into scan. When the scanner hands over with "
+                "directive lex and a bookmark, every lexer loaded from that bookmark makes exactly |head| silent calls and runs "
+                "finish_tag_name on a token with the same kind, name hash and name range (C06_relex_same_tag), nothing between "
+                "finish_tag_name and emit_tag touches kind/hash/name/feedback (C06_relex_intag) and emit_tag hands that token "
+                "to handle_tag (C06_relex_emit). Side-conditions PhaseOk, TextTypeOk (what F1 violated: C06_textTypeOk_rejects_F1) "
+                "and RelexOk on the generated table by decide +kernel. PARTIAL: C06_independence is a statement + oracle."),
+    level_note="Trusted: Lean kernel; DSL translator; the core model (lane lex).",
+    technique="Lean 4 proof (simulation relation between the two machines, preserved by every table arm) + correspondence lane + H vs H u O oracle",
+    design_ref="DESIGN.md section 4 C06",
+)
+
+
+prop(
+    "C16",
+    ["LolHtml.Thm.C16_Attrs"],
+    [{"lane": "attrs", "n_quick": 3000, "n_thorough": 32000},
+     {"lane": "edit", "n_quick": 1500, "n_thorough": 15000}],
+    "lane edit (secondary: reads after edits surface in the serialised output); lane attrs: one start tag (all attribute syntaxes, odd characters, '/' placements, upper case, non-ASCII bytes, html/svg/math context, cut anywhere) through the real HtmlRewriter (element handler: tag_name, attributes(), get/has_attribute, is_self_closing, can_have_content, namespace_uri, locations; then, in about 45 % of the cases, an edit script set_attribute / remove_attribute / set_tag_name — attribute-less tags, duplicates, case variants, set-then-remove, remove-then-set, rejected names — after which tag_name, attributes() and the queries are read again) vs model + Spec.Attrs; oracle: independent WHATWG attribute parser cross-checked with html5ever, and an independent list algebra for the reads after edits (tag edit-read)",
+    ["the byte-level API model presumes the read accessors decode bijectively (windows-1252 in the lane); BOM-prefixed names/values are a finding (no edit scripts on such tags)",
+     "serialisation of an edited tag is C07's (package edit), not read back here"],
+    level_text="Lean 4 theorems for every input byte string: the lexer on the generated table follows Spec.Attrs (C16_outline, unfinished, across a chunk break), emit_tag hands exactly that outline to the sink (C16_emit_tag), lookups/context on the token (C16_lookup, C16_context), reads after edits on the same token (C16_reads_after_edits: set -> first match replaced or appended, remove -> every match gone, rename -> lower-cased new name; materialising the list changes no read; rejected edits change nothing); F8 (lookup and remove_attribute) / F9 refuted statements.",
+    level_note="Trusted: Lean kernel; Spec.Attrs (WHATWG reading); model tied by lanes lex and attrs.",
+    technique="Lean 4 proof (symbolic evaluation of the DSL interpreter per state and byte class + induction over the input; list algebra for the edit API) + correspondence lane",
+    design_ref="DESIGN.md section 4 C16",
+)
+
+prop(
+    "C14",
+    ["LolHtml.Thm.C14_Locations", "LolHtml.Thm.C14_TextNodes"],
+    [{"lane": "attrs", "n_quick": 2000, "n_thorough": 20000}, {"lane": "lex", "n_quick": 2000, "n_thorough": 30000}],
+    LEX_RULE,
+    ["C14_ranges_all_controllers assumes CtlClean (an error returned by a handler is a handler-class error, not one of the model's markers for a Rust panic) and the decidable table side-conditions WfTable (package inv) and EmitsChecked, both evaluated on the generated table; C14_text_contiguous and C14_independent_of_rewrites need EmitsChecked only and no assumption on the controller",
+     "text-node theorems are about the tokens the dispatcher model hands over (one chunk per text lexeme plus the closing chunk); the split of one lexeme into decoder chunks is package enc's model (C13), joined by C14_text_node_decoder_ranges; that a text node's lexemes are what the standard calls one text node is C01/C03's subject",
+     MODEL_SCOPE],
+    level_text="Lean 4 theorems: every token carries src = prevConsumed + raw with raw bytes = the input bytes (C14_src), prevConsumed grows by the bytes consumed (C14_offset); for EVERY controller (rewriting, removing element content, failing) the tokens handed over are well-formed, ordered and pairwise disjoint within and across writes (C14_ranges_all_controllers, using package inv's register invariant); the chunks of one text node are contiguous — each non-last chunk is followed by a text chunk starting at its end, every range is as long as its bytes, the closing chunk sits at the end (C14_text_contiguous, C14_text_node_layout) — and the decoder-level chunks of the node are contiguous and cover exactly that interval (C14_text_node_decoder_ranges, with C13_decoder); two controllers differing only in the bytes they emit receive the same tokens (C14_independent_of_rewrites); attribute name/value locations are exactly the document ranges Spec.Attrs reads, inside the tag (C14_attr_locations).",
+    level_note="Trusted: Lean kernel; model of dispatcher/transform_stream (lane lex), read API (lane attrs), text decoder (lane enc).",
+    technique="Lean 4 proof (sink-preservation / relational parametricity / joint lexer-sink invariants over the interpreter + dispatcher invariants) + correspondence lanes",
+    design_ref="DESIGN.md section 4 C14",
+)
+
+
+prop(
+    "C02",
+    ["LolHtml.Thm.C02_Chunk"],
+    [{"lane": "lex", "n_quick": 4000, "n_thorough": 200000},
+     {"lane": "pass", "n_quick": 2000, "n_thorough": 40000, "impl_only": True}],
+    LEX_RULE + "; oracle: every chunked run is compared with the single-write run (result, canonical event log with absolute ranges, output); lane pass: text nodes seen by a text handler under every encoding must not depend on the chunking",
+    ["the top-level statements (C02_chunk_invariance_statement, C09_schedule_independent_statement) are stated and kernel-checked on concrete documents under several chunkings, but the assembly from the step lemma (parsing loop for one cut, directive switches, dispatcher instance, induction over chunk lists) is still in progress: this claim is PARTIAL",
+     "panic-class, memory and out-of-fuel results are excluded on both runs (C15 shows they cannot occur)",
+     "controllers must not fail on, or branch on, text fragments (inherent in the streaming API)", MODEL_SCOPE],
+    level_text=("Lean 4 theorems for any table satisfying the decidable side-condition WfChunk (a forward dataflow analysis of "
+                "which position registers are live, checked as a post-fixpoint by decide +kernel on the generated table; it "
+                "encodes the discipline finding F7 violated), both machines and any sink: every action of both action sets "
+                "preserves the relation 'split run on a slice vs whole run on the document' with absolute ranges equal "
+                "(C02_action_partial), action lists / conditions / transitions (C02_body_partial), look-ahead sequences and "
+                "memchr scans give the same verdict unless the slice ends first (C02_lookahead_horizon, C02_memchr_horizon), "
+                "breaks re-base correctly (C02_break_*), and ONE STATE-FUNCTION INVOCATION is lock-step or, only if the slice "
+                "ends first, a break of the split run alone (C02_step). PARTIAL: whole-run invariance is a statement + oracle."),
+    level_note="Trusted: Lean kernel; DSL translator; the core model (lane lex).",
+    technique="Lean 4 proof (simulation between a run on a slice and a run on the whole document, step level) + correspondence lane + chunked-vs-single oracle",
+    design_ref="DESIGN.md section 4 C02",
 )
